@@ -35,29 +35,30 @@ var verifDir = func() string {
 }()
 
 type propInfo struct {
-	ID           string   `json:"id"`
-	Quick        int      `json:"quick"`
-	Thorough     int      `json:"thorough"`
-	RaceQuick    int      `json:"race_quick"`
-	RaceThorough int      `json:"race_thorough"`
-	Real         []string `json:"real"`
-	Stub         []string `json:"stub"`
-	Rule         string   `json:"rule"`
-	HasRace      bool     `json:"has_race"`
+	ID              string   `json:"id"`
+	Quick           int      `json:"quick"`
+	Thorough        int      `json:"thorough"`
+	RaceQuick       int      `json:"race_quick"`
+	RaceThorough    int      `json:"race_thorough"`
+	Real            []string `json:"real"`
+	Stub            []string `json:"stub"`
+	Rule            string   `json:"rule"`
+	HasRace         bool     `json:"has_race"`
+	HangIsViolation bool     `json:"hang_is_violation"`
 }
 
 type batchResult struct {
-	Worker     int              `json:"worker"`
-	Layer      string           `json:"layer"`
-	Runs       int              `json:"runs"`
-	Counters   map[string]int64 `json:"counters"`
-	SimNanos   int64            `json:"sim_nanos"`
-	Hashes     []string         `json:"hashes"`
+	Worker     int               `json:"worker"`
+	Layer      string            `json:"layer"`
+	Runs       int               `json:"runs"`
+	Counters   map[string]int64  `json:"counters"`
+	SimNanos   int64             `json:"sim_nanos"`
+	Hashes     []string          `json:"hashes"`
 	Samples    []json.RawMessage `json:"samples"`
-	Violations []found          `json:"violations"`
-	Troubles   []string         `json:"troubles"`
-	NextIndex  int              `json:"next_index"`
-	WallS      float64          `json:"wall_s"`
+	Violations []found           `json:"violations"`
+	Troubles   []string          `json:"troubles"`
+	NextIndex  int               `json:"next_index"`
+	WallS      float64           `json:"wall_s"`
 }
 
 type found struct {
@@ -78,6 +79,8 @@ func trouble(format string, a ...any) {
 	fmt.Fprintf(os.Stderr, "verifrun: TROUBLE: "+format+"\n", a...)
 	os.Exit(2)
 }
+
+var hangIsViolation bool
 
 var (
 	scratch string
@@ -261,7 +264,7 @@ func runLayer(layer string, total int, capSecs int) *layerTotals {
 				}
 				cmd := harnessCmd(layer, "-verif.mode=batch", "-verif.base="+strconv.FormatUint(base, 10),
 					"-verif.from="+strconv.Itoa(from), "-verif.n="+strconv.Itoa(n), "-verif.stride="+strconv.Itoa(W),
-					"-verif.out="+outDir, "-verif.worker="+strconv.Itoa(w), "-verif.secs="+strconv.Itoa(remaining))
+					"-verif.out="+outDir, "-verif.worker="+strconv.Itoa(w), "-verif.secs="+strconv.Itoa(remaining), "-verif.runcap=40")
 				if layer == "race" {
 					cmd.Env = append(cmd.Env, "GORACE=halt_on_error=0 log_path="+filepath.Join(outDir, fmt.Sprintf("racelog-%d", w)))
 				}
@@ -300,6 +303,17 @@ func runLayer(layer string, total int, capSecs int) *layerTotals {
 				jp, jerr := plan.Load(jpath)
 				se := stderr.String()
 				sig, isRepo := crashSig(se)
+				hangMarker := filepath.Join(outDir, fmt.Sprintf("hang-%s-%d", layer, w))
+				if _, herr := os.Stat(hangMarker); herr == nil && exitCode(err) == 3 {
+					os.Remove(hangMarker)
+					if hangIsViolation && jerr == nil {
+						sig, isRepo = "hang", true
+						se = "panic: the run made no progress in real time (a goroutine is blocked on a lock that nothing will release)\n\ngoroutine 0 [running]:\n"
+					} else {
+						sig, isRepo = "", false
+						se = "run exceeded the real-time cap"
+					}
+				}
 				mu.Lock()
 				lt.Crashes++
 				if jerr != nil || !isRepo {
@@ -308,7 +322,11 @@ func runLayer(layer string, total int, capSecs int) *layerTotals {
 					return
 				}
 				o := &plan.Outcome{Counters: map[string]int64{}}
-				o.Violate(prop, "panic", sig, "worker process died: %s", tail(firstPanic(se), 1500))
+				if sig == "hang" {
+					o.Violate(prop, "hang", layer, "worker process died: the run did not finish within the real-time cap: a goroutine of the process under test is blocked for good (the plan is in the replay file)")
+				} else {
+					o.Violate(prop, "panic", sig, "worker process died: %s", tail(firstPanic(se), 1500))
+				}
 				lt.Found = append(lt.Found, found{Seed: jp.Seed, Plan: jp, Outcome: o})
 				mu.Unlock()
 				// continue after the crashing run
@@ -388,11 +406,20 @@ func runPlan(pl *plan.Plan, tag string) *plan.Outcome {
 	}
 	go func() { done <- cmd.Wait() }()
 	var err error
+	limit := 120 * time.Second
+	if layer == "race" {
+		limit = 45 * time.Second
+	}
 	select {
 	case err = <-done:
-	case <-time.After(120 * time.Second):
+	case <-time.After(limit):
 		cmd.Process.Kill()
 		<-done
+		if hangIsViolation && layer == "race" {
+			o := &plan.Outcome{Counters: map[string]int64{}}
+			o.Violate(prop, "hang", layer, "process did not finish within %v of real time: a goroutine of the process under test is blocked for good", limit)
+			return o
+		}
 		return &plan.Outcome{Trouble: "replay timed out"}
 	}
 	b, rerr := os.ReadFile(of)
@@ -453,6 +480,9 @@ func minimise(f found, sig string, crash bool, tag string) (*plan.Plan, int) {
 		// fall through to the slow path
 	}
 	deadline := time.Now().Add(90 * time.Second)
+	if strings.Contains(sig, ":hang") {
+		return f.Plan, 0 // every candidate would cost the full real-time cap: report the plan as found
+	}
 	n := 0
 	best, runs := plan.Minimise(f.Plan, sig, 120, func(c *plan.Plan) *plan.Outcome {
 		if time.Now().After(deadline) {
@@ -506,6 +536,7 @@ func main() {
 	fmt.Printf("VERIF_SEED=%d property=%s tier=%s\n", base, prop, tier)
 	build(false)
 	pi := info()
+	hangIsViolation = pi.HangIsViolation
 
 	if *replay != "" {
 		pl, err := plan.Load(*replay)
@@ -604,7 +635,7 @@ func main() {
 			continue
 		}
 		reported++
-		crash := g.viol.Clause == "panic" && strings.HasPrefix(g.viol.Detail, "worker process died")
+		crash := (g.viol.Clause == "panic" || g.viol.Clause == "hang") && strings.HasPrefix(g.viol.Detail, "worker process died")
 		tag := fmt.Sprintf("g%d", gi)
 		minPlan, reruns := minimise(g.first, s, crash, tag)
 		// fresh-process replay, twice: same signature and same event-log hash
